@@ -31,27 +31,112 @@ def hostOf? (n : Nat) : Option HostV :=
 def uriOf? (n : Nat) : Option UriV :=
   match n with | 0 => some .notGiven | 1 => some .ok | 2 => some .mismatch | _ => Option.none
 
-def dstep (s : Unit) (toks : List String) : Unit × String :=
-  match toks with
-  | ["reset"] => (s, "ok")
-  | ["val", tu, sv, ct, rd, ir, td, tf, pol, bits, tm, ho, ur] =>
+/-- which exit of `validate` a row takes, the value of every input at the point where it matters,
+and the key length against the policy's range (boundaries) -/
+def rowArms (r : Row) (pol : Policy) (bits : Nat) (ho : Nat) : List String :=
+  let keyArm := match pol.minMax? with
+    | Option.none => "key-no-range"
+    | some (lo, hi) =>
+      if bits < lo then "key-below-min" else if bits = lo then "key-eq-min"
+      else if bits = hi then "key-eq-max" else if bits > hi then "key-above-max" else "key-inside"
+  let polArm := "pol-" ++ (match pol with
+    | .none => "none" | .basic128Rsa15 => "basic128rsa15" | .basic256 => "basic256"
+    | .basic256Sha256 => "basic256sha256" | .aes128Sha256RsaOaep => "aes128sha256rsaoaep"
+    | .aes256Sha256RsaPss => "aes256sha256rsapss" | .unknown => "unknown") ++ "-" ++ toString bits
+  if !r.rejDir then ["exit-rejected-dir-missing"]
+  else if r.inRej then ["exit-in-rejected", if r.trustUnknown then "in-rejected-trust-unknown" else "in-rejected-no-trust"]
+  else if !r.trDir then ["exit-trusted-dir-missing"]
+  else if r.trusted = .absent ∧ !r.trustUnknown then ["exit-unknown-untrusted"]
+  else
+    let tr := match r.trusted with
+      | .absent => "trusted-stored-now" | .same => "trusted-same"
+      | .different => "trusted-other-cert" | .garbage => "trusted-garbage"
+    if r.trusted = .different ∨ r.trusted = .garbage then
+      ["exit-file-mismatch", tr, if r.trustUnknown then "mismatch-trust-unknown" else "mismatch-no-trust"]
+    else
+      match r.key with
+      | .panics => ["exit-key-panic", tr, keyArm, polArm]
+      | .invalid => ["exit-key-invalid", tr, keyArm, polArm]
+      | .valid =>
+        let base := [tr, keyArm, polArm]
+        if r.skipVerify then
+          base ++ ["exit-skip-verify"] ++
+            (if r.time ≠ .valid then ["skip-hides-bad-time"] else []) ++
+            (if r.host = .mismatch then ["skip-hides-bad-host"] else []) ++
+            (if r.uri = .mismatch then ["skip-hides-bad-uri"] else [])
+        else
+          let tArm := match r.checkTime, r.time with
+            | true, .valid => "time-checked-valid" | true, .notYet => "time-checked-not-yet"
+            | true, .expired => "time-checked-expired" | false, .valid => "time-unchecked-valid"
+            | false, .notYet => "time-unchecked-not-yet" | false, .expired => "time-unchecked-expired"
+          if r.checkTime ∧ r.time ≠ .valid then base ++ ["exit-time-invalid", tArm]
+          else
+            let hArm := match ho with
+              | 0 => "host-not-given" | 1 => "host-match" | 2 => "host-other" | _ => "host-empty"
+            if r.host = .mismatch then base ++ ["exit-host-invalid", tArm, hArm]
+            else
+              let uArm := match r.uri with
+                | .notGiven => "uri-not-given" | .ok => "uri-match" | .mismatch => "uri-other"
+              if r.uri = .mismatch then base ++ ["exit-uri-invalid", tArm, hArm, uArm]
+              else base ++ ["exit-good", tArm, hArm, uArm]
+
+/-- parse the 12 row fields → (row, policy, bits, host code, trusted file) -/
+def parseRow? (f : List String) : Option (Row × Policy × Nat × Nat × TrustedFile) :=
+  match f with
+  | [tu, sv, ct, rd, ir, td, tf, pol, bits, tm, ho, ur] =>
     match parseBool? tu, parseBool? sv, parseBool? ct, parseBool? rd, parseBool? ir, parseBool? td with
     | some tu, some sv, some ct, some rd, some ir, some td =>
       match tf.toNat?.bind trustedOf?, parsePolicy? pol, bits.toNat?, tm.toNat?.bind timeOf?,
             ho.toNat?.bind hostOf?, ur.toNat?.bind uriOf? with
-      | some tf, some pol, some bits, some tm, some ho, some ur =>
+      | some tf, some pol, some bits, some tm, some hov, some ur =>
         -- a file cannot be in a directory that does not exist
-        if (ir && !rd) || (tf != .absent && !td) then (s, "bad-op") else
-        let row : Row := ⟨tu, sv, ct, rd, ir, td, tf, keyCheck pol bits, tm, ho, ur⟩
-        let res := validateOrReject row
-        match res.status with
-        | Option.none => (s, "panic")
-        | some st =>
-          let rej := ir || res.storedRejected
-          let tr := (tf != .absent) || res.storedTrusted
-          (s, s!"ok {statusName st} rej={boolStr rej} tr={boolStr tr}")
-      | _, _, _, _, _, _ => (s, "bad-op")
-    | _, _, _, _, _, _ => (s, "bad-op")
+        if (ir && !rd) || (tf != .absent && !td) then Option.none
+        else some (⟨tu, sv, ct, rd, ir, td, tf, keyCheck pol bits, tm, hov, ur⟩, pol, bits, ho.toNat?.getD 0, tf)
+      | _, _, _, _, _, _ => Option.none
+    | _, _, _, _, _, _ => Option.none
+  | _ => Option.none
+
+def showRes (row : Row) (res : Res) (tf : TrustedFile) (arms : List String) : String :=
+  let a := " @@ " ++ ",".intercalate arms
+  match res.status with
+  | Option.none => "panic" ++ a
+  | some st =>
+    let rej := row.inRej || res.storedRejected
+    let tr := (tf != .absent) || res.storedTrusted
+    s!"ok {statusName st} rej={boolStr rej} tr={boolStr tr}" ++ a
+
+def dstep (s : Unit) (toks : List String) : Unit × String :=
+  match toks with
+  | ["reset"] => (s, "ok")
+  | ["val", tu, sv, ct, rd, ir, td, tf, pol, bits, tm, ho, ur] =>
+    match parseRow? [tu, sv, ct, rd, ir, td, tf, pol, bits, tm, ho, ur] with
+    | some (row, pol, bits, hoN, tf) => (s, showRes row (validateOrReject row) tf ("val" :: rowArms row pol bits hoN))
+    | Option.none => (s, "bad-op")
+  | ["vonly", tu, sv, ct, rd, ir, td, tf, pol, bits, tm, ho, ur] =>
+    -- `validate_application_instance_cert` itself (no store-in-rejected step)
+    match parseRow? [tu, sv, ct, rd, ir, td, tf, pol, bits, tm, ho, ur] with
+    | some (row, pol, bits, hoN, tf) => (s, showRes row (validate row) tf ("vonly" :: rowArms row pol bits hoN))
+    | Option.none => (s, "bad-op")
+  | ["val2", tu, sv, ct, rd, ir, td, tf, pol, bits, tm, ho, ur, tu2, sv2, ct2] =>
+    -- the same store asked twice about the same certificate, flags changed in between
+    match parseRow? [tu, sv, ct, rd, ir, td, tf, pol, bits, tm, ho, ur], parseBool? tu2, parseBool? sv2, parseBool? ct2 with
+    | some (row, pol, bits, hoN, tf), some tu2, some sv2, some ct2 =>
+      let r1 := validateOrReject row
+      match r1.status with
+      | Option.none => (s, "panic @@ val2-first-panics")
+      | some st1 =>
+        let row2 : Row := { row with trustUnknown := tu2, skipVerify := sv2, checkTime := ct2,
+                                     inRej := row.inRej || r1.storedRejected,
+                                     trusted := if r1.storedTrusted then .same else row.trusted }
+        let r2 := validateOrReject row2
+        let tf2 := row2.trusted
+        let flagArm := "val2-flags-" ++ (if tu2 = row.trustUnknown ∧ sv2 = row.skipVerify ∧ ct2 = row.checkTime then "same" else "changed")
+        let seqArm := "val2-" ++ statusName st1 ++ "-then-" ++ (match r2.status with | some st2 => statusName st2 | Option.none => "panic")
+        let extra := (if r1.storedRejected then ["val2-after-stored-rejected"] else []) ++
+                     (if r1.storedTrusted then ["val2-after-stored-trusted"] else [])
+        let res := showRes row2 r2 tf2 ([flagArm, seqArm] ++ extra)
+        if r2.status.isNone then (s, res) else (s, "ok " ++ statusName st1 ++ " then " ++ res)
+    | _, _, _, _ => (s, "bad-op")
   | _ => (s, "bad-op")
 
 def driver : Driver := { σ := Unit, init := (), step := dstep }
